@@ -1,6 +1,6 @@
 (** C15 — route announcements do not travel beyond the configured hop limit. *)
 From Coq Require Import List NArith Bool.
-From MM Require Import Model.Flood Proofs.FloodBase Proofs.FloodLimit Generated.C15.
+From MM Require Import Model.Flood Model.FloodPreFix Proofs.FloodPreFixProofs Proofs.FloodBase Proofs.FloodLimit Generated.C15.
 Import ListNotations.
 Local Open Scope N_scope.
 
@@ -25,6 +25,12 @@ Theorem C15_never_sent_beyond_limit : forall cf k ops o m,
   lenN (a_path (m_adv m)) <= limit_of cf (m_from m).
 Proof. exact never_sent_beyond_limit. Qed.
 Print Assumptions C15_never_sent_beyond_limit.
+
+(** The code BEFORE commit acd47a2 violated the property: max_hops = 1 everywhere, and agent 2 stored a two-hop path. *)
+Theorem C15_refuted_pre_fix :
+  exists ops, map e_path (entries_pre [1; 1; 1] 3 ops 2) = [[1; 0]; [1; 0]] /\ limit_of [1; 1; 1] 2 = 1.
+Proof. exact C15_pre_fix_limit_ignored. Qed.
+Print Assumptions C15_refuted_pre_fix.
 
 (** Non-vacuity, limit 2 on a chain 0-1-2-3: agent 2 (2 hops) stores the
     route and does not forward; agent 3 learns nothing. With limit 0 (none)
